@@ -107,7 +107,12 @@ SumExpect(args) ==
      ELSE EAny
 
 AbsExpect(args) ==
-  IF Len(args) = 1 /\ args[1].t = "num" THEN EVal(NumQ(QAbs(QOf(args[1])))) ELSE EAny
+  IF Len(args) # 1 THEN EAny
+  ELSE IF args[1].t = "num" THEN EVal(NumQ(QAbs(QOf(args[1]))))
+  ELSE IF args[1].t = "bool" THEN EVal(IntV(IF args[1].b THEN 1 ELSE 0))
+  ELSE IF args[1].t = "txt" /\ NumericText(args[1].s).ok THEN EVal(NumQ(QAbs(NumericText(args[1].s).q)))
+  ELSE IF args[1].t = "txt" /\ TextIsPlain(args[1].s) THEN EErrs(Codes)
+  ELSE EAny
 
 (***************************************************************************)
 (* C18  lookup                                                             *)
@@ -278,6 +283,53 @@ CriteriaExpect(f, args) ==
                          [j \in 1..((Len(args) - 1) \div 2) |-> <<FlatCells(args[2 * j]), args[2 * j + 1]>>])
 
 (***************************************************************************)
+(* C16  real-valued functions: where they are defined                      *)
+(***************************************************************************)
+(* the argument as a rational, through the coercions the statement names:  *)
+(* numbers, numeric text, logicals.  [k |-> "q", q] | "text" | "unspec"    *)
+MathArg(v) ==
+  CASE v.t = "num" -> [k |-> "q", q |-> QOf(v)]
+    [] v.t = "bool" -> [k |-> "q", q |-> QI(IF v.b THEN 1 ELSE 0)]
+    [] v.t = "txt" -> IF NumericText(v.s).ok THEN [k |-> "q", q |-> NumericText(v.s).q]
+                      ELSE IF TextIsPlain(v.s) THEN [k |-> "text"] ELSE [k |-> "unspec"]
+    [] OTHER -> [k |-> "unspec"]
+
+QPos(x) == x.n > 0
+QAbsLe1(x) == AbsI(x.n) <= x.d
+Real1 == {"EXP", "SIN", "COS", "TAN", "SINH", "COSH", "TANH", "ASINH", "ATAN", "ACOT", "RADIANS", "DEGREES"}
+InDomain1(f, x) ==
+  CASE f \in Real1 -> TRUE
+    [] f = "SQRT" -> x.n >= 0
+    [] f \in {"LN", "LOG10"} -> QPos(x)
+    [] f \in {"ASIN", "ACOS"} -> QAbsLe1(x)
+    [] f = "ACOSH" -> x.n >= x.d
+    [] f = "ATANH" -> AbsI(x.n) < x.d
+    [] f = "ACOTH" -> AbsI(x.n) > x.d
+    [] f = "COT" -> x.n # 0
+Math1 == Real1 \cup {"SQRT", "LN", "LOG10", "ASIN", "ACOS", "ACOSH", "ATANH", "ACOTH", "COT"}
+ArgSmall(x) == AbsI(x.n) <= 600 * x.d            \* keeps EXP, SINH, COSH away from overflow
+
+MathExpect(f, args) ==
+  IF f \in Math1
+  THEN IF Len(args) # 1 THEN EAny
+       ELSE LET a == MathArg(args[1]) IN
+            IF a.k = "unspec" THEN EAny
+            ELSE IF a.k = "text" THEN EAnyErr
+            ELSE IF ~ArgSmall(a.q) THEN EAny
+            ELSE IF InDomain1(f, a.q) THEN EAnyNum ELSE EAnyErr
+  ELSE IF Len(args) # 2 THEN EAny
+  ELSE LET a == MathArg(args[1])
+           b == MathArg(args[2])
+       IN IF a.k = "unspec" \/ b.k = "unspec" THEN EAny
+          ELSE IF a.k = "text" \/ b.k = "text" THEN EAnyErr
+          ELSE IF ~ArgSmall(a.q) \/ ~ArgSmall(b.q) THEN EAny
+          ELSE CASE f = "ATAN2" -> IF a.q.n = 0 /\ b.q.n = 0 THEN EErrs({"#DIV/0!"}) ELSE EAnyNum
+                 [] f = "LOG" -> IF QPos(a.q) /\ QPos(b.q) /\ ~(b.q.n = b.q.d) THEN EAnyNum ELSE EAnyErr
+                 [] f = "POWER" -> IF QPos(a.q) THEN (IF AbsI(b.q.n) <= 40 * b.q.d THEN EAnyNum ELSE EAny)
+                                   ELSE IF a.q.n = 0 THEN (IF QPos(b.q) THEN EAnyNum ELSE IF b.q.n = 0 THEN EAny ELSE EAnyErr)
+                                   ELSE IF b.q.d = 1 THEN (IF AbsI(b.q.n) <= 40 THEN EAnyNum ELSE EAny) ELSE EAnyErr
+
+(***************************************************************************)
 (* C15  text                                                               *)
 (***************************************************************************)
 ERel(name, s) == [k |-> "rel", name |-> name, s |-> s]      \* output related to the input text s
@@ -356,6 +408,7 @@ BuiltinExpect(f, args) ==
     [] f = "FALSE" -> IF args = <<>> THEN EVal(Bool(FALSE)) ELSE EAny
     [] f \in {"SUM", "COUNT", "AVERAGE", "MIN", "MAX", "MEDIAN", "MODE", "MODE.SNGL", "PRODUCT", "VAR", "VAR.S", "VARP", "VAR.P",
                "AVEDEV", "HARMEAN"} -> AggExpect(f, args)
+    [] f \in Math1 \cup {"ATAN2", "LOG", "POWER"} -> MathExpect(f, args)
     [] f = "LARGE" -> LargeExpect(args)
     [] f = "SLOPE" -> SlopeExpect(args)
     [] f \in {"SUMIF", "COUNTIF", "AVERAGEIF", "SUMIFS", "AVERAGEIFS", "MAXIFS"} -> CriteriaExpect(f, args)
@@ -381,7 +434,7 @@ MatchesF(e, y) ==
             [] e.name = "clean" -> CleanRel(e.s, y.s))
     [] e.k = "posin" -> y.t = "num" /\ y.d = 1 /\ y.n \in e.ps
     [] e.k = "truth" -> (y.t = "bool" /\ y.b = e.b) \/ (y.t = "num" /\ y.d = 1 /\ y.n = (IF e.b THEN 1 ELSE 0))
-    [] e.k = "anynum" -> y.t = "num"
+    [] e.k = "anynum" -> y.t \in {"num", "flt", "big"} /\ (y.t = "flt" => y.r \notin {"nan", "inf", "-inf"})
     [] OTHER -> Matches(e, y)
 
 RECURSIVE MatchesX(_, _)
